@@ -221,7 +221,8 @@ class RefNet:
         out = {}
         for (n, o), i in self.inst.items():
             if i['lib'] == 'rd':
-                out[f'{n}/{o}/q'] = ref_rhs('rd', i['p'], {'q': y[f'{n}/{o}/q']}, y[i['reads']])['q']
+                out[f'{n}/{o}/q'] = ref_rhs('rd', i['p'], {'q': y[f'{n}/{o}/q']},
+                                            y[i['reads']] + (extra or {}).get((n, o), 0.0))['q']
                 continue
             u = self.undelayed_input(y, n, o) + (extra or {}).get((n, o), 0.0)
             if past is not None:
